@@ -50,3 +50,50 @@ pub fn settings(core: &mockcore::Handle, dir: &Path, flags: &[&str]) -> ord::set
 pub fn regtest_core() -> mockcore::Handle {
   mockcore::builder().network(bitcoin::Network::Regtest).build()
 }
+
+/// Open an index against a node reachable at `rpc_url` (used by child processes
+/// that talk to a mock node living in the parent process).
+pub fn open_index_url(rpc_url: &str, cookie_file: &str, dir: &Path, flags: &[String]) -> ord::Index {
+  use clap::Parser;
+  let mut args: Vec<String> = vec![
+    "ord".into(),
+    "--bitcoin-rpc-url".into(),
+    rpc_url.into(),
+    "--cookie-file".into(),
+    cookie_file.into(),
+    "--data-dir".into(),
+    dir.to_str().unwrap().into(),
+    "--regtest".into(),
+  ];
+  args.extend(flags.iter().cloned());
+  let options = ord::Options::try_parse_from(args).expect("options");
+  let settings = ord::settings::Settings::merge(options, Default::default()).expect("settings");
+  ord::Index::open(&settings).expect("open index")
+}
+
+/// A reveal witness carrying one inscription (tapscript + empty control block).
+pub fn inscription_witness(content_type: &[u8], body: &[u8]) -> bitcoin::Witness {
+  let inscription = ord::Inscription {
+    content_type: Some(content_type.to_vec()),
+    body: Some(body.to_vec()),
+    ..Default::default()
+  };
+  let script = inscription
+    .append_reveal_script_to_builder(bitcoin::script::Builder::new())
+    .into_script();
+  let mut witness = bitcoin::Witness::new();
+  witness.push(script.as_bytes());
+  witness.push([]);
+  witness
+}
+
+/// Statistic keys that are scheduling / timing bookkeeping, not index content.
+pub const BOOKKEEPING_STATS: [u64; 3] = [2, 9, 17]; // Commits, InitialSyncTime, LastSavepointHeight
+
+/// Index content for comparisons across schedules: every table except the
+/// write-transaction timestamps, statistics without the bookkeeping keys.
+pub fn content(mut dump: ord::index::verif::Dump) -> ord::index::verif::Dump {
+  dump.write_transaction_starting_block_count_to_timestamp.clear();
+  dump.statistic_to_count.retain(|(k, _)| !BOOKKEEPING_STATS.contains(k));
+  dump
+}
